@@ -126,6 +126,7 @@ type txScript struct {
 	maxReq       int
 	lateConsumer bool
 	clockThread  bool // the clock is advanced by its own thread (at any point) instead of by the poller
+	quickBound0  bool // quick tier: call-granularity interleavings only (preemption bound 0)
 }
 
 func (s txScript) name() string {
@@ -663,6 +664,9 @@ func c06Scenarios(thorough bool) []*scenario {
 			// a retry poll visits 256 buckets under the manager's read lock: ~520 scheduling points
 			// per poll, so these scenarios are completed to preemption bound 1
 			b = []int{0, 1}
+			if s.quickBound0 && !thorough {
+				b = []int{0}
+			}
 		}
 		r = append(r, &scenario{name: s.name(), bounds: b, body: txScenario(s), steps: 20000})
 	}
@@ -676,6 +680,11 @@ func c06Scenarios(thorough bool) []*scenario {
 	add(txScript{peers: [][]string{{"A0"}, {"A0"}}, poll: []int{1}, adv: true, clockThread: true})
 	add(txScript{peers: [][]string{{"A0"}, {"A0", "D0"}}, poll: []int{1}, adv: true})
 	add(txScript{peers: [][]string{{"A0", "D0"}, {"A1", "D1"}}})
+	// one transaction delivered more than once (by two peers, or twice by one) next to another that
+	// stays outstanding and has a second announcer: after the timeout that announcer must be
+	// offered it (what is counted or derived from deliveries must not leak into other transactions)
+	add(txScript{peers: [][]string{{"D0", "A1"}, {"D0", "A1"}}, poll: []int{1}, adv: true, quickBound0: true})
+	add(txScript{peers: [][]string{{"D0", "D0", "A1"}, {"A1"}}, poll: []int{1}, adv: true, quickBound0: true})
 	// an old undelivered transaction: three announcers and the clock passing the request timeout at
 	// any point between them (the announcement after the timeout is a re-request; the next one,
 	// inside the new window, must not be)
@@ -707,6 +716,7 @@ func c06Scenarios(thorough bool) []*scenario {
 	}
 	r = append(r, &scenario{name: "txmanager/clean-cut-off-between-request-and-delivery", bounds: []int{0}, body: cleanCutoffScenario(), steps: 50000})
 	if thorough {
+		add(txScript{peers: [][]string{{"A0", "D0", "A1"}, {"A0", "D0", "A1"}}, poll: []int{1}, adv: true})
 		add(txScript{peers: [][]string{{"A0", "A0"}, {"A0"}}, poll: []int{1, 1}, adv: true})
 		add(txScript{peers: [][]string{{"A0", "A1"}, {"A1", "A0"}}, poll: []int{0, 1}, adv: true})
 		add(txScript{peers: [][]string{{"A0"}, {"A0"}, {"A0", "D0"}}, poll: []int{1, 2}, adv: true})
